@@ -1011,6 +1011,10 @@ fn int_arith(op: BinOp, x: i64, y: i64) -> R<i64> {
             if y == 0 {
                 return Err(Undef::DivByZero);
             }
+            // INT_MIN % -1 overflows in 32-bit arithmetic just like INT_MIN / -1 (undefined in C++)
+            if x == i32::MIN as i64 && y == -1 {
+                return Err(Undef::Overflow32);
+            }
             x % y // sign of the dividend
         }
     })
